@@ -228,3 +228,39 @@ def rk_displacement(vel, X, Y, Z, n: int, dt: float, dx, dy, tableau, clip=None)
     du = sum(bi * k for bi, k in zip(b, ku))
     dv = sum(bi * k for bi, k in zip(b, kv))
     return dt * du / dx, dt * dv / dy
+
+
+# --------------------------------------------------------------------------
+# release schedule (C04)
+# --------------------------------------------------------------------------
+
+
+def release_schedule(sc, first_step: int = 0, last_step: int | None = None) -> dict[int, list[dict]]:
+    """model step -> rows due at that step (each row once; it yields row['mult'] particles).
+
+    Window: start inclusive, stop exclusive.  Steps are counted in simulation direction
+    from the scenario's start.  Continuous mode: ticks at first_file_step + k * freq."""
+    rel = sc["release"]
+    T = sc["time"]
+    nsteps = int(T["nsteps"])
+    extra = int(T.get("stop_extra", 0))
+    # a row at step s is inside [start, stop) iff 0 <= s*dt < nsteps*dt + extra
+    def in_window(s: int) -> bool:
+        return 0 <= s and (s < nsteps or (s == nsteps and extra > 0))
+
+    rows = rel["rows"]
+    sched: dict[int, list[dict]] = {}
+    if not rel.get("continuous"):
+        for r in rows:
+            if in_window(int(r["step"])):
+                sched.setdefault(int(r["step"]), []).append(r)
+    else:
+        freq = int(rel["freq_steps"])
+        file_steps = sorted({int(r["step"]) for r in rows})
+        tick = file_steps[0]
+        while in_window(tick) or tick < 0:
+            if tick >= 0:
+                latest = max(s for s in file_steps if s <= tick)
+                sched[tick] = [r for r in rows if int(r["step"]) == latest]
+            tick += freq
+    return sched
